@@ -1431,6 +1431,15 @@ pub fn g_consts(o: &mut Out) {
                         spellings.extend([format!("e+{}", mag), format!("E+{}", mag), format!("e+00{}", mag)]);
                     }
                     let cap = text_cap(ty).map_or("-".to_string(), |c| c.to_string());
+                    // padded so that the whole text fills the streaming text buffer exactly, and one less
+                    if let Some(c) = text_cap(ty) {
+                        let base = f.p() + 1 + sg.len() + mag.to_string().len();
+                        for total in [c - 1, c] {
+                            if total > base {
+                                spellings.push(format!("e{}{}{}", sg, "0".repeat(total - base), mag));
+                            }
+                        }
+                    }
                     for sp in spellings {
                         for sign in ["", "-", "+"] {
                             let t = format!("{}{}{}", sign, digit.repeat(f.p()), sp);
